@@ -25,6 +25,18 @@
 (*              reads Page1 and then, other steps interleaving, the rest at the then-current     *)
 (*              content (pages not pinned to one store revision) can return a content the store  *)
 (*              never had, and RealStatesMonotone fails.                                        *)
+(* Two more facts the clauses rest on are parameters as well (both FALSE / 0 in the code; the     *)
+(* real code is decided by the trace validation - histories that end with the deletion of the    *)
+(* most recently modified key, outages that span several pulls with unchanged content):          *)
+(*   StaleGuard   every key carries its mod revision (mrev: the number of the write that last     *)
+(*              put it).  pullCompareSend accepts whatever a successful pull returns.  With      *)
+(*              StaleGuard a non-empty pulled content whose highest mod revision is lower than   *)
+(*              that of `data` is ignored ("never step back"): deleting the most recently         *)
+(*              modified key lowers the maximum, and Converges fails;                            *)
+(*   ResyncAfter  a failed pull changes nothing, however many fail in a row (`fails` counts them   *)
+(*              when ResyncAfter > 0).  A syncer that forgets `data` at the ResyncAfter-th         *)
+(*              consecutive failure re-sends an unchanged content after the outage, and          *)
+(*              Distinct fails.                                                                  *)
 (* `send` blocks while the channel (capacity Buf; 10 in the code) is full, and the     *)
 (* loop does nothing else meanwhile.  Deviations of the code from the ideal are modelled as      *)
 (* the code behaves: an initially empty content is not delivered (data starts empty).            *)
@@ -43,7 +55,9 @@ CONSTANTS Keys,         \* keys under the prefix
           MaxWrites, MaxRestarts, MaxCancels,
           Ticker,       \* BOOLEAN: FALSE removes the periodic pull (to show Converges is not vacuous)
           PullScope,    \* subset of Keys a pull returns and compares (the code: Watched)
-          Page1         \* subset of Keys read by the first request of a pull (the code: Keys, a pull is one request)
+          Page1,        \* subset of Keys read by the first request of a pull (the code: Keys, a pull is one request)
+          StaleGuard,   \* BOOLEAN (the code: FALSE): ignore a non-empty pull whose highest mod revision is below that of `data`
+          ResyncAfter   \* 0 (the code) or n > 0: forget `data` at the n-th consecutive failed pull
 
 Contents == [Keys -> Vals \cup {"none"}]
 Empty == [k \in Keys |-> "none"]
@@ -61,9 +75,13 @@ VARIABLES store,     \* content of the store
           half,      \* the content at the first request of a paged pull
           ch,        \* the buffered channel
           recv,      \* ghost: everything the consumer received, in order
-          writes, restarts, cancels
+          writes, restarts, cancels,
+          mrev,      \* per key: the number of the write that last put it, 0 = absent or there from the start (all 0 unless StaleGuard)
+          drev,      \* highest mod revision in `data` (0 unless StaleGuard)
+          fails      \* consecutive failed pulls (0 unless ResyncAfter > 0)
 
-vars == <<store, hist, up, walive, wev, spc, data, half, ch, recv, writes, restarts, cancels>>
+aux == <<mrev, drev, fails>>
+vars == <<store, hist, up, walive, wev, spc, data, half, ch, recv, writes, restarts, cancels, aux>>
 
 Init ==
     /\ store \in Contents          \* the syncer may start on any content
@@ -71,36 +89,53 @@ Init ==
     /\ up = TRUE /\ walive = TRUE /\ wev = FALSE
     /\ spc = "init" /\ data = Empty /\ half = Empty /\ ch = <<>> /\ recv = <<>>
     /\ writes = 0 /\ restarts = 0 /\ cancels = 0
+    /\ mrev = [k \in Keys |-> 0] /\ drev = 0 /\ fails = 0
 
 (* ---- the store *)
 Touches(new) == \E k \in Watched : new[k] # store[k]
 
-DoWrite(new, notify) ==
+(* `put`: the keys the write puts (their mod revision becomes the number of this write) *)
+DoWrite(new, notify, put) ==
     /\ up /\ writes < MaxWrites
     /\ writes' = writes + 1
     /\ store' = new
     /\ hist' = Append(hist, Proj(new))
     /\ wev' = IF walive /\ notify THEN TRUE ELSE wev
-    /\ UNCHANGED <<up, walive, spc, data, half, ch, recv, restarts, cancels>>
+    /\ mrev' = IF StaleGuard
+               THEN [k \in Keys |-> IF new[k] = "none" THEN 0 ELSE IF k \in put THEN writes + 1 ELSE mrev[k]]
+               ELSE mrev
+    /\ UNCHANGED <<up, walive, spc, data, half, ch, recv, restarts, cancels, drev, fails>>
 
-(* put (a same-value put also produces a watch event) / delete of one key *)
-PutKey(k, v)  == DoWrite([store EXCEPT ![k] = v], k \in Watched)
-DeleteKey(k)  == DoWrite([store EXCEPT ![k] = "none"], k \in Watched /\ store[k] # "none")
+(* put (a same-value put also produces a watch event and a new mod revision) / delete of one key *)
+PutKey(k, v)  == DoWrite([store EXCEPT ![k] = v], k \in Watched, {k})
+DeleteKey(k)  == DoWrite([store EXCEPT ![k] = "none"], k \in Watched /\ store[k] # "none", {})
 (* one transaction changing several keys at once *)
-Txn(new)      == new # store /\ DoWrite(new, Touches(new))
+Txn(new)      == new # store /\ DoWrite(new, Touches(new), {k \in Keys : new[k] # store[k]})
 (* a key outside the prefix *)
-WriteOutside  == DoWrite(store, FALSE)
+WriteOutside  == DoWrite(store, FALSE, {})
 
 (* ---- syncer.run *)
 (* pullCompareSend; `spc` afterwards.  Compare(c): the pull returned content c *)
+MaxOf(S) == IF S = {} THEN 0 ELSE CHOOSE x \in S : \A y \in S : y <= x
+PulledRev == MaxOf({mrev[k] : k \in PullScope})        \* highest mod revision of what a pull returns now
 Compare(c) ==
-    IF Scope(c) # data
-    THEN /\ data' = Scope(c) /\ spc' = "send"
-    ELSE /\ UNCHANGED data /\ spc' = "loop"        \* equal: nothing happens
+    IF StaleGuard /\ Scope(c) # Empty /\ PulledRev < drev
+    THEN /\ UNCHANGED <<data, drev>> /\ spc' = "loop"    \* "stale": ignored
+    ELSE IF Scope(c) # data
+    THEN /\ data' = Scope(c) /\ spc' = "send" /\ drev' = IF StaleGuard THEN PulledRev ELSE drev
+    ELSE /\ UNCHANGED <<data, drev>> /\ spc' = "loop"        \* equal: nothing happens
+(* a failed pull: nothing happens - unless the syncer gives up on what it remembers (ResyncAfter) *)
+FailedPull ==
+    /\ spc' = "loop"
+    /\ fails' = IF ResyncAfter > 0 /\ fails <= ResyncAfter THEN fails + 1 ELSE fails
+    /\ IF ResyncAfter > 0 /\ fails + 1 = ResyncAfter
+       THEN data' = Empty /\ drev' = 0
+       ELSE UNCHANGED <<data, drev>>
 Pull ==
-    IF ~up THEN /\ spc' = "loop" /\ UNCHANGED <<data, half>>      \* the pull failed: nothing happens
-    ELSE IF Paged THEN /\ half' = store /\ spc' = "page2" /\ UNCHANGED data
-    ELSE /\ Compare(store) /\ UNCHANGED half
+    /\ UNCHANGED mrev
+    /\ IF ~up THEN FailedPull /\ UNCHANGED half
+       ELSE IF Paged THEN /\ half' = store /\ spc' = "page2" /\ UNCHANGED <<data, drev, fails>>
+       ELSE /\ Compare(store) /\ UNCHANGED half /\ fails' = 0
 
 FirstPull  == /\ spc = "init" /\ Pull
               /\ UNCHANGED <<store, hist, up, walive, wev, ch, recv, writes, restarts, cancels>>
@@ -109,30 +144,30 @@ WatchPull  == /\ spc = "loop" /\ wev /\ wev' = FALSE /\ Pull
 TickerPull == /\ Ticker /\ spc = "loop" /\ Pull
               /\ UNCHANGED <<store, hist, up, walive, wev, ch, recv, writes, restarts, cancels>>
 (* the second request of a paged pull: the rest of the keys, as they are now *)
-PullPage2  == /\ spc = "page2" /\ half' = Empty
-              /\ IF up THEN Compare([k \in Keys |-> IF k \in Page1 THEN half[k] ELSE store[k]])
-                       ELSE spc' = "loop" /\ UNCHANGED data
+PullPage2  == /\ spc = "page2" /\ half' = Empty /\ UNCHANGED mrev
+              /\ IF up THEN Compare([k \in Keys |-> IF k \in Page1 THEN half[k] ELSE store[k]]) /\ fails' = 0
+                       ELSE FailedPull
               /\ UNCHANGED <<store, hist, up, walive, wev, ch, recv, writes, restarts, cancels>>
 (* the adapter delivers the watched part of `data` *)
 Send       == /\ spc = "send" /\ Len(ch) < Buf
               /\ ch' = Append(ch, Proj(data)) /\ spc' = "loop"
-              /\ UNCHANGED <<store, hist, up, walive, wev, data, half, recv, writes, restarts, cancels>>
+              /\ UNCHANGED <<store, hist, up, walive, wev, data, half, recv, writes, restarts, cancels, aux>>
 
 Consume == /\ ch # <<>> /\ recv' = Append(recv, Head(ch)) /\ ch' = Tail(ch)
-           /\ UNCHANGED <<store, hist, up, walive, wev, spc, data, half, writes, restarts, cancels>>
+           /\ UNCHANGED <<store, hist, up, walive, wev, spc, data, half, writes, restarts, cancels, aux>>
 
 (* ---- faults *)
 Stop  == /\ up /\ restarts < MaxRestarts
          /\ up' = FALSE /\ restarts' = restarts + 1
          /\ wev' \in {wev, FALSE}                   \* undelivered events may be lost
-         /\ UNCHANGED <<store, hist, walive, spc, data, half, ch, recv, writes, cancels>>
+         /\ UNCHANGED <<store, hist, walive, spc, data, half, ch, recv, writes, cancels, aux>>
 Start == /\ ~up /\ up' = TRUE
-         /\ UNCHANGED <<store, hist, walive, wev, spc, data, half, ch, recv, writes, restarts, cancels>>
+         /\ UNCHANGED <<store, hist, walive, wev, spc, data, half, ch, recv, writes, restarts, cancels, aux>>
 Cancel == /\ walive /\ cancels < MaxCancels
           /\ walive' = FALSE /\ wev' = FALSE /\ cancels' = cancels + 1
-          /\ UNCHANGED <<store, hist, up, spc, data, half, ch, recv, writes, restarts>>
+          /\ UNCHANGED <<store, hist, up, spc, data, half, ch, recv, writes, restarts, aux>>
 Rewatch == /\ spc = "loop" /\ ~walive /\ walive' = TRUE
-           /\ UNCHANGED <<store, hist, up, wev, spc, data, half, ch, recv, writes, restarts, cancels>>
+           /\ UNCHANGED <<store, hist, up, wev, spc, data, half, ch, recv, writes, restarts, cancels, aux>>
 
 Next == \/ \E k \in Keys, v \in Vals : PutKey(k, v)
         \/ \E k \in Keys : DeleteKey(k)
@@ -170,4 +205,6 @@ Converges == <>[](View = Proj(store))
 TypeOK == /\ store \in Contents /\ data \in Contents /\ spc \in {"init", "loop", "send", "page2"}
           /\ Watched \subseteq PullScope /\ (spc = "page2" => Paged)
           /\ Len(ch) <= Buf
+          /\ (~StaleGuard => drev = 0 /\ \A k \in Keys : mrev[k] = 0) /\ (ResyncAfter = 0 => fails = 0)
+          /\ (StaleGuard => ~Paged)
 =============================================================================
